@@ -86,8 +86,36 @@ func buildDB(b gen.Book, order []int) shared.DBNodeMap {
 	return db
 }
 
-// resolveVia runs one of the two public entry points.
+// buildDBShared builds the same book the way a caller does that keeps all ingredient lines in one table and gives
+// every recipe a window of it (table[a:b]): the lists of different recipes lie next to each other in one backing
+// array, each with spare capacity that reaches into its neighbours. Every fifth recipe is additionally entered from
+// one parsed node used twice (the second under its own name again: the later Push wins, the lists are shared).
+func buildDBShared(b gen.Book, order []int) shared.DBNodeMap {
+	total := 0
+	for _, rec := range b {
+		total += len(rec.Ents)
+	}
+	table := make(shared.Elements, 0, total)
+	db := shared.NewDBNodeMap()
+	for k, i := range order {
+		rec := b[i]
+		start := len(table)
+		for _, e := range rec.Ents {
+			table = append(table, shared.NewElement(e.Name, e.Val.F()))
+		}
+		n := shared.NewParserNode(rec.Name)
+		n.Elements = table[start:len(table)]
+		db.Push(shared.NewDBNodeFromNode(n))
+		if k%5 == 4 {
+			db.Push(shared.NewDBNodeFromNode(n))
+		}
+	}
+	return db
+}
+
+// resolveVia runs one of the two public entry points (entry 2 and 3: the same two on a book built by buildDBShared).
 func resolveVia(entry int, db shared.DBNodeMap, maxDepth int) error {
+	entry %= 2
 	if entry == 0 {
 		_, err := resolver.Resolve(resolver.Config{MaxDepth: maxDepth}, db)
 		return err
